@@ -45,12 +45,14 @@ type c08Base struct {
 	FlagD    []string    `json:"flag_disabled"`
 	FlagE    []string    `json:"flag_enabled"`
 	CfgD     []string    `json:"cfg_disabled"`
+	CfgE     []string    `json:"cfg_enabled,omitempty"` // checks { enabled = [...] } of the configuration file
 	Offline  bool        `json:"offline"`
 	Enables  []c08Enable `json:"rule_enable_blocks"`
 	Disables []c08Enable `json:"rule_disable_blocks"`
 }
 
 type c08Step struct {
+	DropCfgEnabled bool `json:"drop_cfg_enabled,omitempty"` // reference run: the same base WITHOUT its checks{enabled} list
 	Kind  string   `json:"kind"` // offline | flag-disabled | cfg-disabled | rule-disable | rule-enable-and-disable | flag-enabled | flag-disabled-instance | flag-disabled-tag
 	Value string   `json:"value,omitempty"`
 	List  []string `json:"list,omitempty"`
@@ -75,8 +77,19 @@ func (b c08Base) config(step *c08Step) string {
 	if step != nil && step.Kind == "cfg-disabled" {
 		cd = append(cd, step.Value)
 	}
-	if len(cd) > 0 {
-		fmt.Fprintf(&s, "checks {\n  disabled = %s\n}\n", hclList(cd))
+	ce := b.CfgE
+	if step != nil && step.DropCfgEnabled {
+		ce = nil
+	}
+	if len(cd) > 0 || len(ce) > 0 {
+		s.WriteString("checks {\n")
+		if len(ce) > 0 {
+			fmt.Fprintf(&s, "  enabled = %s\n", hclList(ce))
+		}
+		if len(cd) > 0 {
+			fmt.Fprintf(&s, "  disabled = %s\n", hclList(cd))
+		}
+		s.WriteString("}\n")
 	}
 	all := c08AllKinds
 	if b.Locked {
@@ -123,7 +136,7 @@ func (b c08Base) args(step *c08Step) []string {
 			g = append(g, "--offline")
 		case "flag-disabled", "flag-disabled-instance", "flag-disabled-tag":
 			g = append(g, "--disabled", step.Value)
-		case "flag-enabled":
+		case "flag-enabled", "flag-enabled-over-cfg-enabled", "ref-flag-enabled-without-cfg-enabled":
 			for _, e := range step.List {
 				g = append(g, "--enabled", e)
 			}
@@ -187,6 +200,9 @@ func c08GenBase(r *rand.Rand) c08Base {
 	if r.Intn(3) == 0 {
 		b.CfgD = c08Subset(r, checks.CheckNames, 0.1)
 	}
+	if len(b.FlagE) == 0 && r.Intn(3) == 0 {
+		b.CfgE = c08Subset(r, checks.CheckNames, 0.6)
+	}
 	b.Offline = r.Intn(6) == 0
 	for k := r.Intn(3); k > 0; k-- {
 		e := c08Enable{Names: c08Subset(r, checks.CheckNames, 0.12), AlertingOnly: r.Intn(2) == 0}
@@ -249,7 +265,34 @@ func c08GenSteps(r *rand.Rand, b c08Base) []c08Step {
 	if len(tags) > 0 {
 		st = append(st, c08Step{Kind: "flag-disabled-tag", Value: pick(r, serverBound) + "(+" + pick(r, tags) + ")"})
 	}
-	if len(b.FlagE) == 0 {
+	if len(b.FlagE) == 0 && len(b.CfgE) > 0 {
+		// CLI x configuration file: --enabled REPLACES the checks{enabled} list of the file (names inside and outside that list);
+		// reference = the same run with the file's list removed
+		in := map[string]bool{}
+		for _, n := range b.CfgE {
+			in[n] = true
+		}
+		var outside []string
+		for _, n := range checks.CheckNames {
+			if !in[n] {
+				outside = append(outside, n)
+			}
+		}
+		for k := 0; k < 2; k++ {
+			var e []string
+			if len(outside) > 0 {
+				e = append(e, pick(r, outside))
+			}
+			if k == 1 || len(e) == 0 {
+				e = append(e, pick(r, b.CfgE))
+			}
+			if r.Intn(2) == 0 {
+				e = append(e, pick(r, checks.CheckNames))
+			}
+			st = append(st, c08Step{Kind: "flag-enabled-over-cfg-enabled", List: e},
+				c08Step{Kind: "ref-flag-enabled-without-cfg-enabled", List: e, DropCfgEnabled: true})
+		}
+	} else if len(b.FlagE) == 0 {
 		st = append(st, c08Step{Kind: "flag-enabled", List: c08Subset(r, checks.CheckNames, 0.4)})
 		if len(st[len(st)-1].List) == 0 {
 			st[len(st)-1].List = []string{names[3]}
@@ -418,7 +461,7 @@ func c08Pairs(r *rand.Rand, rep *runReport, cwd string, n int) {
 			continue
 		}
 		if jb.step == nil {
-			rep.hist(fmt.Sprintf("pairs:base servers=%d flagD=%d offline=%v enable-blocks=%d", len(b.Proms), len(b.FlagD), b.Offline, len(b.Enables)))
+			rep.hist(fmt.Sprintf("pairs:base servers=%d flagD=%d offline=%v enable-blocks=%d cfg-enabled=%v", len(b.Proms), len(b.FlagD), b.Offline, len(b.Enables), len(b.CfgE) > 0))
 			continue
 		}
 		br := baseRun[jb.base]
@@ -426,6 +469,29 @@ func c08Pairs(r *rand.Rand, rep *runReport, cwd string, n int) {
 			continue // reported above for the base itself
 		}
 		st := *jb.step
+		if st.Kind == "ref-flag-enabled-without-cfg-enabled" {
+			continue // only a reference
+		}
+		if st.Kind == "flag-enabled-over-cfg-enabled" {
+			ref := jobs[j+1] // generated right after it
+			if ref.step == nil || ref.step.Kind != "ref-flag-enabled-without-cfg-enabled" || scCrashed(ref.res) || !ref.res.JSONOK {
+				rep.hist("pairs:reference-run-missing")
+				continue
+			}
+			missing, extra := scDiff(scKeys(ref.res.Problems), scKeys(jb.res.Problems))
+			rep.count(fmt.Sprintf("pair|%d|%s|%v", jb.base, st.Kind, st.List), len(ref.res.Problems) > 0)
+			rep.hist("binary:pair-" + st.Kind)
+			if len(missing) > 0 || len(extra) > 0 {
+				sort.Strings(missing)
+				sort.Strings(extra)
+				desc["reference_run_args"] = ref.res.Args
+				desc["missing_vs_reference"] = missing
+				desc["unexpected"] = extra
+				rep.fail(cid, fmt.Sprintf("--enabled %v with checks{enabled=%v} in the configuration file: the command line must REPLACE the file's list, but the problems differ from the same run without the file's list: %d missing (e.g. %v), %d unexpected (e.g. %v)",
+					st.List, b.CfgE, len(missing), first(missing), len(extra), first(extra)), desc)
+			}
+			continue
+		}
 		// rule{enable=[N]} override on the rule a problem belongs to
 		overridden := func(p scProblem, name string) bool {
 			alerting, found := false, false
